@@ -206,6 +206,8 @@ def run(ctx: Ctx) -> None:
 
 G = "cartgraph/graph.py"
 MUTANTS = [
+    ("reentrancy-ignores-spent-tries", NODE, "            max_concurrent_tries = min(\n                max_concurrent_tries, max_tries - len(spent_tries)\n            )", "            pass", "6t"),
+    ("reentrancy-counts-inflight-as-left", NODE, "spent_tries = [r for r in self.shared_results if r[\"status\"] != \"UNKNOWN\"]", "spent_tries = []", "6t"),
     ("await-in-test-and-set", G, "        if test_node.is_occupied(worker):\n            return\n        test_node.started_worker = worker\n\n        # add previous",
      "        if test_node.is_occupied(worker):\n            return\n        await asyncio.sleep(0)\n        test_node.started_worker = worker\n\n        # add previous", "1/T.A1"),
     ("no-occupied-test-in-reverse", G, "        if test_node.is_occupied(worker):\n            return\n        test_node.started_worker = worker\n        if test_node.should_clean(worker):",
